@@ -322,6 +322,11 @@ def run(repo: Repo, chk: Check):
             return False
         if isinstance(e, ast.Name):
             ds_ = rd.at(at, e.id)
+            if not ds_:
+                # a module-level constant of the daemon (assigned once, never rebound in a function)
+                glob = repo.mod("mod_daemon").assigns.get(e.id, [])
+                rebound = any(isinstance(g_, ast.Global) and e.id in g_.names for g_ in ast.walk(repo.mod("mod_daemon").tree))
+                return len(glob) == 1 and not rebound and getattr(glob[0], "value", None) is not None and is_display(glob[0].value)
             return bool(ds_) and all(d_.kind == "assign" and not d_.index and d_.value is not None and display_at(d_.value, d_.node, depth + 1) for d_ in ds_)
         if isinstance(e, ast.Dict):
             return all(k is not None and isinstance(k, ast.Constant) and isinstance(k.value, str) and display_at(v, at, depth + 1) for k, v in zip(e.keys, e.values))
@@ -378,18 +383,34 @@ def run(repo: Repo, chk: Check):
         f = cm.func(q)
         chk.saw("compiler", q)
         bad = []
+        from .shared import fn_ctx
+        fcfg, frd = fn_ctx(f)
+
+        def dict_valued(v, at, depth=0):
+            """a dict display, the compiler's result, a nested compile call, or a local name all of whose reaching definitions are such values"""
+            if depth > 5 or v is None:
+                return False
+            if isinstance(v, ast.Dict):
+                return True
+            if norm(v) == "self.data.result":
+                return True
+            if isinstance(v, ast.Call) and (norm(v.func).endswith(".compile") or norm(v.func) == "compile_code"):
+                return True
+            if isinstance(v, ast.IfExp):
+                return dict_valued(v.body, at, depth + 1) and dict_valued(v.orelse, at, depth + 1)
+            if isinstance(v, ast.Name) and at is not None:
+                ds = frd.at(at, v.id)
+                return bool(ds) and all(d_.kind == "assign" and not d_.index and d_.value is not None and dict_valued(d_.value, d_.node, depth + 1) for d_ in ds)
+            return False
         for r in ast.walk(f):
             if isinstance(r, ast.Return) and not any(isinstance(a, (ast.FunctionDef, ast.Lambda)) and a is not f for a in _ancestors_until(r, f)):
                 v = r.value
+                ids = [x.id for x in fcfg.nodes_of(r)]
                 if v is None:
                     bad.append("bare return")
-                elif isinstance(v, ast.Dict) or (isinstance(v, ast.Name) and v.id in ("d", "msg")):
-                    continue
-                elif norm(v) == "self.data.result":
-                    continue
-                elif isinstance(v, ast.Call) and norm(v.func).endswith(".compile"):
-                    continue
-                else:
+                elif not ids:
+                    continue  # unreachable
+                elif not dict_valued(v, ids[0]):
                     bad.append(norm(v)[:50])
         chk.judge("R14.b", f"compiler:{q}:returns only dictionaries", not bad, f"other return values: {bad}", None, f"{cm.path}:{f.lineno}")
     # data.result is only ever assigned dict displays
